@@ -76,10 +76,13 @@ CHECKS = {
         rule="inputs: 1-4 rapid-drawn mutations (bit flips, hostile byte values, chunk size-field rewrites incl. 0/1/odd/len+-k/0x7fffffff/0xffffffff, dimension rewrites, chunk delete/duplicate/move, FourCC swaps, truncation, random tails, inserts, 0x00/0xff runs, splices across seeds) of ~25 small valid files (package encoder: lossy 1/4/8 partitions, lossy+alpha raw/compressed/quantised, lossless, metadata; animation encoder lossless/lossy/mixed; muxer; /verif's VP8 and VP8L generators incl. predictor modes 14/15 and 15-bit codes; libwebp-written; repo testdata; valid pictures of more than 100,000 pixels that are 9-12 pixels high or wide; 14-frame animations), freshly generated free-mode VP8L/VP8 streams (intact or mutated), a multi-damage mutation that makes several frames of one file undecodable at once, 14-frame animations, GOMAXPROCS drawn from {as is,1,2,3,4} per case (worker counts of the frame-parallel reader), random bytes behind a valid magic, and container programs with lying size fields. "
              "Every input goes through Decode, DecodeConfig, GetFeatures, image.Decode/DecodeConfig, animation.DecodeBytes+DecodeFrames+DecodeFramesParallel+AnimDecoder playback, mux.NewDemuxer+Frame(i)+GetChunk+iterator. "
              "Oracle: no panic, returns within a watchdog limit of 30 s + 1 ms per 20,000 declared pixels (an expiry must reproduce with six times that limit before it counts), well-formed results (positive bounds, buffers large enough), bytes allocated <= 64 MiB + 64 x (input length + 4 x declared pixels). "
+             "The same inputs also go through mux.ReadChunkHeader/ReadChunk (walked chunk by chunk and at odd offsets: a success must describe bytes that exist), animation.Decode and the header queries through one of six other legal io.Reader behaviours (must agree with the bytes.Reader results), and AnimDecoder.Reset + replay (same number of canvases). "
+             "(scaling) TestC05Scaling: a VP8X file made of 1-3 chunk kinds (empty/short ALPH, unknown, ICCP/EXIF/XMP, repeated VP8X/ANIM, broken VP8, tiny VP8L, ANMF empty/with ALPH/with unknown sub-chunk/complete) repeated n and 4n times (n = 3000..9000), optionally with the only image chunk at the very end; process CPU time of all entry points must not grow faster than the input: a violation needs >= 2 s CPU for the large file and more than 10x the small file's time, twice in a row. "
              "Non-trivial: input still carries the RIFF/WEBP magic; distinct = (source, seed, mutation kinds, which entry points accepted). Thorough adds a native coverage-guided fuzz campaign over the same entry points.",
         assumptions=["inputs declaring more than 2^22 pixels are run through the header-only entry points (counted as skipped_huge_declared)",
                      "allocation measured with runtime.MemStats.TotalAlloc in a single-goroutine test process"],
-        tests=[dict(name="TestC05", quick=60000, thorough=800000, env=dict(VERIF_WANT_LASTCASE="1"))],
+        tests=[dict(name="TestC05", quick=60000, thorough=800000, env=dict(VERIF_WANT_LASTCASE="1")),
+               dict(name="TestC05Scaling", quick=320, thorough=4800)],
         fuzz=[dict(name="FuzzC05", seconds=240, hang_is_violation=True)],
     ),
     "C17": dict(
